@@ -31,6 +31,32 @@ static void gen(Case& c)
       c.recs.push_back(Rec("real").add((int) SoPlex::OPTTOL).add(tols[R(0, 3)]));
    }
    c.recs.push_back(Rec("load").add(R(0, 1)));
+   // known finding C01/polish-textbook-rt: exclude exactly RATIOTESTER_TEXTBOOK together with polishing != OFF
+   if(knownKey("polish-textbook-rt"))
+   {
+      bool textbook = false;
+      for(auto& r : c.recs) if(r.tag == "int" && r.i(0) == SoPlex::RATIOTESTER && r.i(1) == SoPlex::RATIOTESTER_TEXTBOOK) textbook = true;
+      if(textbook)
+         for(auto& r : c.recs)
+            if(r.tag == "int" && r.i(0) == SoPlex::SOLUTION_POLISHING && r.i(1) != SoPlex::POLISHING_OFF)
+            {
+               r.a[1] = "0";
+               ev().count("excluded_known.polish-textbook-rt");
+            }
+   }
+   // known finding C01/starter-free-row: exclude exactly STARTER != OFF on LPs with a free row
+   if(knownKey("starter-free-row"))
+   {
+      bool freeRow = false;
+      for(int i = 0; i < c.lp.m(); i++) if(!isFin(c.lp.lhs[i]) && !isFin(c.lp.rhs[i])) freeRow = true;
+      if(freeRow)
+         for(auto& r : c.recs)
+            if(r.tag == "int" && r.i(0) == SoPlex::STARTER && r.i(1) != SoPlex::STARTER_OFF)
+            {
+               r.a[1] = "0";
+               ev().count("excluded_known.starter-free-row");
+            }
+   }
 }
 
 static Verdict run(const Case& c)
